@@ -6,6 +6,7 @@
 //! the retransmit threshold) re-chop the stream at other boundaries than the first
 //! transmission used; this is where overlapping segments come from.
 
+use std::future::Future;
 use std::cell::RefCell;
 use std::collections::VecDeque;
 use std::net::{IpAddr, SocketAddr};
@@ -1377,6 +1378,174 @@ pub fn lazy_connect_scenario(ch: &mut Chooser, _thorough: bool) -> Exec {
     if let Some(v) = violation.as_mut() {
         v.sig = format!("lazy-connect|{}", v.clause);
         v.scenario = format!("c13-lazy-connect {obs}");
+        v.actions = vec![obs.clone()];
+    }
+    Exec { outcome: Digest::of64(&obs), violation, features: vec![] }
+}
+
+/// C06, both directions with one side streaming until told to stop: the acceptor writes one
+/// chunk per round until it has read a one-byte "stop" from the connector, then shuts down; the
+/// connector sends the stop byte at once and reads to end-of-file. The k-th data-bearing packet
+/// from the connector (the stop byte or one of its retransmissions) is lost `losses` times.
+/// The acceptor's stream of segments keeps arriving at the connector meanwhile -- every one of
+/// them carries an ACK, none acknowledges the stop byte -- so the stop byte has to be
+/// retransmitted on its own clock. Within the retransmit budget the exchange must finish.
+pub fn stream_until_stop_scenario(ch: &mut Chooser, _thorough: bool) -> Exec {
+    let lat: u32 = 1 + ch.choose("one_way_latency_rounds_minus_1", 2) as u32;
+    let thr: u32 = *ch.of("retx_threshold", &[2u32, 3]);
+    let max: u32 = 6;
+    let losses: u32 = 1 + ch.choose("stop_byte_lost_times_minus_1", 2) as u32;
+    let chunk: usize = *ch.of("chunk_bytes", &[1usize, 40]);
+    let kc = KernelConfig::default().mtu(1500).retx_threshold(thr).retx_max(max);
+    let mut net = Net::with_config(kc);
+    let (cip, sip): (IpAddr, IpAddr) = ("10.0.0.1".parse().unwrap(), "10.0.0.2".parse().unwrap());
+    let c = net.add_host(cip);
+    let s = net.add_host(sip);
+    let hosts = [c, s];
+    let guard = net.enter();
+    let round: Rc<RefCell<u32>> = Rc::new(RefCell::new(0));
+    #[derive(Default)]
+    struct Log {
+        read: usize,
+        eof: bool,
+        written: usize,
+        stop_seen: bool,
+        err: Vec<String>,
+        done: [bool; 2],
+    }
+    let log: Rc<RefCell<Log>> = Rc::new(RefCell::new(Log::default()));
+    let mut exec = Executor::new();
+    {
+        let (log, round) = (log.clone(), round.clone());
+        exec.spawn(1, async move {
+            let Ok(l) = TcpListener::bind(SocketAddr::new(sip, 80)).await else { return };
+            let Ok((st, _)) = l.accept().await else { return };
+            let (mut rd, mut wr) = st.into_split();
+            // reader task half: polled inline through a select-free loop (one round = one chunk)
+            let mut stop = [0u8; 1];
+            let mut read_fut = Box::pin(async move {
+                let r = rd.read(&mut stop).await;
+                (r, rd)
+            });
+            loop {
+                // has the stop byte arrived?
+                let w = std::task::Waker::noop();
+                let mut cx = std::task::Context::from_waker(w);
+                if let std::task::Poll::Ready((r, _rd)) = read_fut.as_mut().poll(&mut cx) {
+                    match r {
+                        Ok(1) => log.borrow_mut().stop_seen = true,
+                        Ok(n) => log.borrow_mut().err.push(format!("acceptor: read returned {n} before the stop byte")),
+                        Err(e) => log.borrow_mut().err.push(format!("acceptor: read: {}", errk(&e))),
+                    }
+                    break;
+                }
+                let data = vec![0x5au8; chunk];
+                if let Err(e) = wr.write_all(&data).await {
+                    log.borrow_mut().err.push(format!("acceptor: write: {}", errk(&e)));
+                    break;
+                }
+                log.borrow_mut().written += chunk;
+                // next round
+                let until = *round.borrow() + 1;
+                std::future::poll_fn(|cx| {
+                    if *round.borrow() >= until {
+                        std::task::Poll::Ready(())
+                    } else {
+                        cx.waker().wake_by_ref();
+                        std::task::Poll::Pending
+                    }
+                })
+                .await;
+            }
+            let _ = wr.shutdown().await;
+            drop(wr);
+            log.borrow_mut().done[1] = true;
+            std::future::pending::<()>().await;
+            drop(l);
+        });
+    }
+    {
+        let log = log.clone();
+        exec.spawn(0, async move {
+            let mut st = match TcpStream::connect(SocketAddr::new(sip, 80)).await {
+                Ok(s) => s,
+                Err(e) => {
+                    log.borrow_mut().err.push(format!("connect: {}", errk(&e)));
+                    return;
+                }
+            };
+            if let Err(e) = st.write_all(&[0x53]).await {
+                log.borrow_mut().err.push(format!("connector: write: {}", errk(&e)));
+            }
+            let mut buf = [0u8; 256];
+            loop {
+                match st.read(&mut buf).await {
+                    Ok(0) => {
+                        log.borrow_mut().eof = true;
+                        break;
+                    }
+                    Ok(k) => log.borrow_mut().read += k,
+                    Err(e) => {
+                        log.borrow_mut().err.push(format!("connector: read: {}", errk(&e)));
+                        break;
+                    }
+                }
+            }
+            log.borrow_mut().done[0] = true;
+            std::future::pending::<()>().await;
+            drop(st);
+        });
+    }
+    let mut wire: VecDeque<(u32, turmoil_net::Packet)> = VecDeque::new();
+    let horizon = 400u32;
+    let mut lost = 0u32;
+    let mut finished_at = None;
+    for r in 0..horizon {
+        *round.borrow_mut() = r;
+        while wire.front().map(|(t, _)| *t <= r).unwrap_or(false) {
+            let (_, p) = wire.pop_front().unwrap();
+            guard.deliver(p);
+        }
+        exec.run_until_stalled(4000, |tag| turmoil_net::set_current(hosts[tag as usize]));
+        let mut out = vec![];
+        guard.egress_all(&mut out);
+        for p in out {
+            // the connector's data-bearing packets carry the stop byte
+            let from_connector_with_data = p.src == cip && matches!(&p.payload, turmoil_net::Transport::Tcp(seg) if !seg.payload.is_empty());
+            if from_connector_with_data && lost < losses {
+                lost += 1;
+                continue;
+            }
+            wire.push_back((r + lat, p));
+        }
+        let l = log.borrow();
+        if (l.done[0] && l.done[1]) || !l.err.is_empty() {
+            finished_at = Some(r);
+            break;
+        }
+    }
+    let l = log.borrow();
+    let what = format!(
+        "the acceptor streams {chunk}-byte chunks until it reads the connector's stop byte; that byte is lost {losses} time(s) (latency {lat}, retx_threshold {thr}, retx_max {max}: {losses} losses are within the budget)"
+    );
+    let mut violation: Option<Violation> = None;
+    if !l.err.is_empty() {
+        violation = Some(Violation::new("aborted", format!("{what}: {:?}", l.err)));
+    } else if !(l.done[0] && l.done[1]) {
+        violation = Some(Violation::new(
+            "stall",
+            format!("{what}: after {horizon} rounds the acceptor has{} seen the stop byte and written {} bytes, the connector has read {} bytes, EOF seen: {}", if l.stop_seen { "" } else { " not" }, l.written, l.read, l.eof),
+        ));
+    } else if l.read != l.written {
+        violation = Some(Violation::new("prefix", format!("{what}: the acceptor wrote {} bytes before shutting down, the connector read {} and then EOF", l.written, l.read)));
+    }
+    drop(l);
+    drop(exec);
+    drop(guard);
+    let obs = format!("lat={lat} thr={thr} losses={losses} chunk={chunk} finished_at={finished_at:?}");
+    if let Some(v) = violation.as_mut() {
+        v.sig = format!("stream-until-stop|{}", v.clause);
+        v.scenario = format!("c06-stream-until-stop {obs}");
         v.actions = vec![obs.clone()];
     }
     Exec { outcome: Digest::of64(&obs), violation, features: vec![] }
